@@ -126,3 +126,38 @@ func verifOptReport(c *Compiler, node parser.Node, in []byte, inMap map[int]pars
 	}
 	verifOptSink(p)
 }
+
+// VerifSymEvent is one use of the symbol table by the compiler (trace spec SymbolTableTrace.tla).
+type VerifSymEvent struct {
+	Ev    string       // Define, DefineBuiltin, Resolve, Mark, FuncEnd
+	Table *SymbolTable // the table the call was made on
+	Name  string
+	Sym   *Symbol // the symbol returned / marked (nil when Resolve fails)
+	Depth int
+	Ok    bool
+	Free  []*Symbol // FuncEnd: FreeSymbols() of the function table being left
+	Max   int       // FuncEnd: MaxSymbols()
+}
+
+var verifSymSink func(VerifSymEvent)
+
+// VerifSetSymSink installs the receiver of symbol-table events (nil: off).
+func VerifSetSymSink(f func(VerifSymEvent)) { verifSymSink = f }
+
+func verifSym(ev string, t *SymbolTable, name string, s *Symbol, depth int, ok bool) {
+	if verifSymSink != nil {
+		verifSymSink(VerifSymEvent{Ev: ev, Table: t, Name: name, Sym: s, Depth: depth, Ok: ok})
+	}
+}
+
+func verifSymEnd(t *SymbolTable, free []*Symbol, max int) {
+	if verifSymSink != nil {
+		verifSymSink(VerifSymEvent{Ev: "FuncEnd", Table: t, Free: free, Max: max, Ok: true})
+	}
+}
+
+// VerifParent and VerifBlock expose the shape of the table chain to the recorder.
+func (t *SymbolTable) VerifParent() *SymbolTable { return t.parent }
+
+// VerifBlock reports whether the table belongs to a block (not a function).
+func (t *SymbolTable) VerifBlock() bool { return t.block }
